@@ -209,6 +209,33 @@ fn sharing_stmt(rng: &mut Rng, d2: bool) -> (String, &'static str) {
     }
 }
 
+/// the same source with the names of the prelude's words and variables rotated (w0->w1->w2->w0, u0<->u1, lt0<->lt1,
+/// v0<->v1, m0<->m1, b0->b1->b2->b3->b0): another clone running it diverges in content while its dictionary keeps the
+/// same size
+fn rotate_names(src: &str) -> String {
+    src.split(' ')
+        .map(|t| match t {
+            "w0" => "w1",
+            "w1" => "w2",
+            "w2" => "w0",
+            "u0" => "u1",
+            "u1" => "u0",
+            "lt0" => "lt1",
+            "lt1" => "lt0",
+            "v0" => "v1",
+            "v1" => "v0",
+            "m0" => "m1",
+            "m1" => "m0",
+            "b0" => "b1",
+            "b1" => "b2",
+            "b2" => "b3",
+            "b3" => "b0",
+            other => other,
+        })
+        .collect::<Vec<_>>()
+        .join(" ")
+}
+
 fn apply(xs: &mut Xstate, op: &Op) -> String {
     match op {
         Op::Eval(s) => {
@@ -391,8 +418,39 @@ impl C03 {
                 let s = &mut snaps[k];
                 let ops: Vec<(Op, String)> = copies[s.of].log[s.at..].to_vec();
                 let mut target = if round == 0 { s.xs.clone() } else { std::mem::replace(&mut s.xs, Xstate::default()) };
+                // "no later activity on any other clone can change it": half of the replays are shadowed by another clone
+                // of the same snapshot that goes a different way in lockstep - the same sources with the names of words and
+                // variables rotated - and keeps looking names up right before the replay does
+                let mut shadow = if round == 0 && !d2 && rng.flip() {
+                    obs.count("replays_shadowed_by_a_diverging_clone");
+                    Some(target.clone())
+                } else {
+                    None
+                };
                 for (n, (op, want)) in ops.iter().enumerate() {
+                    if let Some(sh) = shadow.as_mut() {
+                        // right before the replay looks its first name up, the shadow looks the same name up (its
+                        // dictionary has the same size, other content)
+                        let first = match op {
+                            Op::Eval(t) | Op::CompileRun(t) | Op::Steps(t, _, _) => t.split_whitespace().next().unwrap_or("").to_string(),
+                            _ => String::new(),
+                        };
+                        if !first.is_empty() {
+                            let _ = apply(sh, &Op::Eval(format!("depth 0 > if drop then {}", first)));
+                        }
+                    }
                     let got = apply(&mut target, op);
+                    if let Some(sh) = shadow.as_mut() {
+                        let rot = match op {
+                            Op::Eval(t) => Some(Op::Eval(rotate_names(t))),
+                            Op::CompileRun(t) => Some(Op::CompileRun(rotate_names(t))),
+                            Op::Steps(t, a, b) => Some(Op::Steps(rotate_names(t), *a, *b)),
+                            _ => None,
+                        };
+                        if let Some(r) = rot {
+                            let _ = apply(sh, &r);
+                        }
+                    }
                     obs.count("replayed_ops");
                     if &got != want {
                         let class = if op.show().contains("d2-") { "d2" } else { op.kind() };
